@@ -551,6 +551,9 @@ func (mf *mergeFn) collectWrites() {
 					if len(ap.Call.Args) > 1 {
 						w.elems = mf.appendedElems(ap.Call.Args[1])
 						w.vtag = mf.prov(ap.Call.Args[1])
+						if ba := m.ap(w.appBase); ba.Root != a.Root || ba.PathString() != a.PathString() {
+							w.vtag |= mf.prov(w.appBase)
+						}
 					}
 				}
 				mf.writes = append(mf.writes, w)
